@@ -679,7 +679,7 @@ def check(run):
     # end-to-end segment: the real jet1090 binary over loopback TCP, judged by Trace_Pipeline for the
     # clauses of Pipeline.tla that restate this property through main.rs's wiring (see _e2e.py)
     from . import _e2e
-    n_e2e = 40 if run.tier == "thorough" else 0
+    n_e2e = 40 if run.tier == "thorough" else 8
     if n_e2e:
         _e2e.segment(run, n_e2e)
 
